@@ -18,9 +18,9 @@ func init() {
 		Explanation: "Decided: R11-poll — in the loop installed by SetContext the handler dispatch is dominated, on every iteration, by the default arm of a non-blocking select whose only other case receives from L.ctx.Done(), and the Done arm raises; nothing but the two main loops indexes jumpTable; " +
 			"R11-loopsel — byte-code is entered only through the LState.mainLoop field (no direct call of either loop), every function that stores a context into LState.ctx stores the context-aware loop into the same state's mainLoop (and the plain loop with a nil context), NewThread derives the child's context from the parent's with WithCancel and keeps the cancel function, kill() cancels it; " +
 			"R11-block — on every path on which L.ctx is known non-nil, each potentially blocking channel operation (reflect Send/Recv/Select, native channel ops) is a select that includes a receive from L.ctx.Done(); R12-loops shared. " +
-			"NOT decided: promptness inside long-running host functions (string.rep, pattern matching, table.sort), the 'bounded by call depth' count.",
+			"R11-threadctx — a new thread's context is derived from the state's context (the main thread's), not from the context of the coroutine that creates it, which is cancelled when that coroutine finishes: a context that is never done cannot change what nested coroutines do. NOT decided: promptness inside long-running host functions (string.rep, pattern matching, table.sort), the 'bounded by call depth' count.",
 		Trusted: []string{"context.Context.Done() is closed when the context is done (stdlib contract)"},
-		Rules:   []func(*Ctx){rulePoll, ruleLoopSel, ruleBlock, ruleLoops},
+		Rules:   []func(*Ctx){rulePoll, ruleLoopSel, ruleBlock, ruleLoops, ruleThreadCtx},
 	})
 }
 
@@ -260,10 +260,38 @@ func ruleLoopSel(c *Ctx) {
 		cancelF := p.Field("lua", "LState", "ctxCancelFn")
 		allInstrs(fn, func(in ssa.Instruction) {
 			if pk, n, ok := stdCall(in); ok && pk == "context" && n == "WithCancel" {
-				if base, ok := loadsField(in.(*ssa.Call).Call.Args[0], ctxF); ok {
-					if _, isRecv := base.(*ssa.Parameter); isRecv {
-						okDerive = true
+				// the parent is the creating thread's context or the main thread's (which the creating thread's
+				// is derived from): cancelling the state's context reaches the coroutine either way
+				mainF := p.Field("lua", "Global", "MainThread")
+				var okv func(v ssa.Value, d int) bool
+				okv = func(v ssa.Value, d int) bool {
+					if d > 4 {
+						return false
 					}
+					if base, ok := loadsField(v, ctxF); ok {
+						if _, isRecv := base.(*ssa.Parameter); isRecv {
+							return true
+						}
+						if _, ok := loadsField(base, mainF); ok {
+							return true
+						}
+						if ph, ok := base.(*ssa.Phi); ok {
+							_ = ph
+						}
+						return false
+					}
+					if ph, ok := v.(*ssa.Phi); ok {
+						for _, e := range ph.Edges {
+							if !okv(e, d+1) {
+								return false
+							}
+						}
+						return len(ph.Edges) > 0
+					}
+					return false
+				}
+				if okv(in.(*ssa.Call).Call.Args[0], 0) {
+					okDerive = true
 				}
 			}
 			if st, ok := isFieldStore(in, cancelF); ok {
@@ -272,7 +300,7 @@ func ruleLoopSel(c *Ctx) {
 				}
 			}
 		})
-		c.check(okDerive, R, "NewThread:child-of-parent-ctx", p.pos(fn.Pos()), "the coroutine's context is context.WithCancel(parent.ctx)", "a coroutine's context is not derived from its creator's: cancelling the parent does not stop the coroutine")
+		c.check(okDerive, R, "NewThread:child-of-parent-ctx", p.pos(fn.Pos()), "the coroutine's context is derived from the creating thread's or the main thread's context", "a coroutine's context is derived neither from its creator's nor from the main thread's context: cancelling the state's context does not stop the coroutine")
 		c.check(okCancel, R, "NewThread:keeps-cancel", p.pos(fn.Pos()), "the cancel function is stored for kill()", "the child's cancel function is dropped")
 	}
 	if fn := c.need(R, "lua", "(*LState).kill"); fn != nil {
@@ -417,4 +445,53 @@ func walkCtxNonNil(g *PCFG, ctxF *types.Var, fn *ssa.Function, barrier func(ssa.
 		return false
 	}
 	return rec(fn.Blocks[0])
+}
+
+
+// ruleThreadCtx: kill() cancels a finished thread's own context (to release it). NewThread must therefore
+// not hang a new thread's context under the creating coroutine's: the parent handed to context.WithCancel
+// comes from G.MainThread whenever that has a context (F48).
+func ruleThreadCtx(c *Ctx) {
+	const R = "R11-threadctx"
+	c.floor(R, 1)
+	p := c.P
+	fn := c.need(R, "lua", "(*LState).NewThread")
+	if fn == nil {
+		return
+	}
+	mainF := p.Field("lua", "Global", "MainThread")
+	ctxF := p.Field("lua", "LState", "ctx")
+	n, okc := 0, true
+	var site ssa.Instruction = fn.Blocks[0].Instrs[0]
+	allInstrs(fn, func(in ssa.Instruction) {
+		pk, name, ok := stdCall(in)
+		if !ok || pk != "context" || name != "WithCancel" {
+			return
+		}
+		n++
+		site = in
+		parent := in.(*ssa.Call).Call.Args[0]
+		fromMain := false
+		var scan func(v ssa.Value, d int)
+		scan = func(v ssa.Value, d int) {
+			if d > 4 {
+				return
+			}
+			if base, ok := loadsField(v, ctxF); ok {
+				if _, ok := loadsField(base, mainF); ok {
+					fromMain = true
+				}
+			}
+			if ph, ok := v.(*ssa.Phi); ok {
+				for _, e := range ph.Edges {
+					scan(e, d+1)
+				}
+			}
+		}
+		scan(parent, 0)
+		if !fromMain {
+			okc = false
+		}
+	})
+	c.check(n > 0 && okc, R, "NewThread:context-from-main-thread", p.ipos(site), "the parent of the new thread's context is the state's (main thread's) context", "NewThread derives the new thread's context from the creating thread's own context: a coroutine created inside another coroutine is cancelled ('context canceled') as soon as its creator finishes, although the context attached to the state is still live — attaching a context changes behaviour")
 }
